@@ -308,6 +308,72 @@ func TestVerifC10SM4(t *testing.T) {
 					inputsIntact("inplace", "in-place")
 					r.Eval(fmt.Sprintf("%s|inplace|pt[%s]", pn, kernelClass(len(c.pt))))
 				}
+				// ---------------- CROSS-ARGUMENT aliasing that crypto/cipher allows: the additional data (and the nonce)
+				// may be the very bytes dst already holds - the record idiom of crypto/tls,
+				// Seal(record[:hdr], nonce, record[hdr:], record[:hdr]): header = dst prefix = additional data, the
+				// plaintext sits exactly where the output goes; on the way back Open(payload[:0], nonce, payload, header)
+				// with header and payload adjacent in one buffer; the explicit nonce may be the tail of the header
+				{
+					hdr := c.aad
+					if len(hdr) < 8 {
+						hdr = append(append([]byte{}, hdr...), rng.Bytes(8-len(hdr))...)
+					}
+					wantSealed := ref.NewGCM(c.key).Seal(c.nonce, c.pt, hdr, c.tag)
+					for variant := 0; variant < 3; variant++ {
+						record := make([]byte, len(hdr)+len(c.pt), len(hdr)+len(c.pt)+c.tag+variant)
+						copy(record, hdr)
+						copy(record[len(hdr):], c.pt)
+						nonce := gNonce.B
+						wantS := wantSealed
+						if variant == 2 && a.NonceSize() <= len(hdr) {
+							// the nonce is the tail of the header inside the record
+							nonce = record[len(hdr)-a.NonceSize() : len(hdr)]
+							wantS = ref.NewGCM(c.key).Seal(nonce, c.pt, hdr, c.tag)
+						}
+						var out []byte
+						p, msg, _, _ := hk.Try(func() { out = a.Seal(record[:len(hdr)], nonce, record[len(hdr):], record[:len(hdr)]) })
+						d := c.detail()
+						d["idiom"], d["variant"], d["header_len"] = "Seal(record[:hdr], nonce, record[hdr:], record[:hdr])", variant, len(hdr)
+						if p {
+							d["panic"] = msg
+							r.Violation("seal-panics-when-aad-is-the-dst-prefix:"+pn, d)
+						} else if !bytes.Equal(out, append(append([]byte{}, hdr...), wantS...)) {
+							d["got"] = clip(out)
+							r.Violation("seal-result-not-dst+output-when-aad-is-the-dst-prefix:"+pn, d)
+						}
+						// and back: header and sealed payload adjacent in one buffer
+						rec2 := append(append([]byte{}, hdr...), wantS...)
+						nonce2 := gNonce.B
+						if variant == 2 && a.NonceSize() <= len(hdr) {
+							nonce2 = rec2[len(hdr)-a.NonceSize() : len(hdr)]
+						}
+						payload := rec2[len(hdr):]
+						var pt []byte
+						var oerr error
+						if variant == 1 {
+							p, msg, _, _ = hk.Try(func() { pt, oerr = a.Open(rec2[:len(hdr)], nonce2, payload, rec2[:len(hdr)]) })
+							if !p && oerr == nil && len(pt) >= len(hdr) {
+								if !bytes.Equal(pt[:len(hdr)], hdr) {
+									r.Violation("open-result-not-dst+output-when-aad-is-the-dst-prefix:"+pn, d)
+								}
+								pt = pt[len(hdr):]
+							}
+						} else {
+							p, msg, _, _ = hk.Try(func() { pt, oerr = a.Open(payload[:0], nonce2, payload, rec2[:len(hdr)]) })
+						}
+						if p {
+							d["panic"] = msg
+							r.Violation("open-panics-on-record-idiom:"+pn, d)
+						} else if oerr != nil || !bytes.Equal(pt, c.pt) {
+							d["err"] = fmt.Sprint(oerr)
+							r.Violation("open-wrong-on-record-idiom:"+pn, d)
+						}
+						if !bytes.Equal(rec2[:len(hdr)], hdr) {
+							r.Violation("open-modifies-header-of-record:"+pn, d)
+						}
+					}
+					r.Eval(fmt.Sprintf("%s|record-idiom(aad=dst-prefix)|pt[%s]", pn, kernelClass(len(c.pt))))
+				}
 				// ---------------- Block: inputs intact, repeatable
 				{
 					blk, _ := NewCipher(gKey.B)
